@@ -540,6 +540,27 @@ def cmdEncodeFrames (fields : List String) : Except String String :=
   | [] => .ok (bytesHex [])
   | _ => .error "encodeframes: expected 1 field"
 
+/-- `checkreport <path> <line char sev msg>*` (blank-separated, strings encoded): hex of stdout, exit status -/
+def cmdCheckReport (fields : List String) : Except String String :=
+  match fields with
+  | [path, ds] => do
+      let p ← decStr path
+      let rec go : List String → Except String (List RDiag)
+        | l :: c :: s :: m :: rest => do
+            let l' ← parseNatTok l
+            let c' ← parseNatTok c
+            let s' ← parseNatTok s
+            let m' ← decStr m
+            let tl ← go rest
+            pure (⟨l', c', s', m'⟩ :: tl)
+        | [] => pure []
+        | _ => .error "checkreport: bad diagnostic list"
+      let l ← go (words ds)
+      match checkReport p l with
+      | some (out, code) => .ok s!"ok\t{bytesHex out.toUTF8.toList}\t{code}"
+      | none => .ok "panic"
+  | _ => .error "checkreport: expected 2 fields"
+
 def dispatch (cmd : String) (fields : List String) : Except String String :=
   if cmd = "exec" then cmdExec fields
   else if cmd = "reconcile" then cmdReconcile fields
@@ -550,6 +571,7 @@ def dispatch (cmd : String) (fields : List String) : Except String String :=
   else if cmd = "show" then cmdShow fields
   else if cmd = "parse" then cmdParse fields
   else if cmd = "lex" then cmdLex fields
+  else if cmd = "checkreport" then cmdCheckReport fields
   else if cmd = "readframes" then cmdReadFrames fields
   else if cmd = "encodeframes" then cmdEncodeFrames fields
   else .error s!"unknown command {cmd}"
